@@ -130,7 +130,7 @@ PROP_TWINS = {
     'C03': ['ef_big'],
     'C04': ['ef_dict', 'ef_big'],
     'C08': ['vfilter', 'vfunc'],
-    'C11': ['shard_edge'],
+    'C11': ['shard_edge', 'vfunc'],
     'C05': ['bfv_misc'],
     'C10': ['bfv_chunks', 'bfv_apply'],
     'C14': ['bfv_chunks', 'bfv_apply'],
